@@ -535,6 +535,7 @@ contract(
     props=["C06"],
     params={"self": Ref("C06_Writer")},
     returns=Dict(STR, STR),
+    comp_membership=True,  # membership characterisation of `S.update(<filtered generator>)` (opt-in engine axiom)
     # class invariant of NamedAnchor: the key is a function of the name (NamedAnchor.__init__ 'classified')
     requires=[_ALL_ANCHORS.format(body=f"{_at('a', 'b')}.key == an_key({_at('a', 'b')}.name)")],
     ensures={
